@@ -23,7 +23,7 @@ CLAIMED = {
     "C16": (MC, "Each rlbox operator expression (18 binary x 8 wrapper combinations, unary, compound assignment, ++/--) is compared by the solver with "
                 "the same expression on plain values compiled in the same TU: equal value, C++ result type (is_same flag), operand update, and "
                 "abort only when a sandbox-resident operand cannot hold the plain result - for all operand values.",
-            "Integer operands only; UB inputs of the plain expression carry no obligation.", "DESIGN.md 4/C16"),
+            "The ten standard integer types, float and double (incl. NaN/inf/denormal bit patterns); long double, bool and character types not covered; UB inputs of the plain expression carry no obligation.", "DESIGN.md 4/C16"),
     "C17": (MC, "a[i] on tainted<T[N]> (application memory) and tainted_volatile<T[N]> (sandbox memory) for 4 element types x lengths x index types "
                 "and two-level arrays: aborts iff i<0 or i>=N (mathematical), else designates exactly start+i*stride of that memory's layout; no access "
                 "outside the array object - for every index value.",
